@@ -244,6 +244,20 @@ where
         }
         self.storage.batch_set(updates).await?;
 
+        // Compute the new root hash while the transaction is still open (the root node is read
+        // from the transaction log). Doing this after the commit would let a failing read turn a
+        // publish that DID take effect into an error.
+        let root_hash = match current_azks
+            .get_root_hash_safe::<TC, _>(&self.storage, next_epoch)
+            .await
+        {
+            Ok(root_hash) => root_hash,
+            Err(err) => {
+                let _ = self.storage.rollback_transaction();
+                return Err(err);
+            }
+        };
+
         // Commit the transaction
         info!("Committing transaction");
         match self.storage.commit_transaction().await {
@@ -256,10 +270,6 @@ where
                 return Err(AkdError::Storage(err));
             }
         };
-
-        let root_hash = current_azks
-            .get_root_hash_safe::<TC, _>(&self.storage, next_epoch)
-            .await?;
 
         Ok(EpochHash(next_epoch, root_hash))
     }
